@@ -480,8 +480,20 @@ class Exec(ExprMixin, CallMixin):
                 self.used_anchors.add(anchor)
                 for e in exprs:
                     st.assume(self.eval_spec(e, st, self.spec_locals(st), st.old))
+        for anchor, exprs in c.cuts.items():
+            # "before:" cuts are proved (and then assumed) in the state before the anchored statement
+            isb = anchor.startswith("before:")
+            a = anchor[7:].strip() if isb else anchor
+            if isb and before and a in text:
+                self.used_anchors.add(anchor)
+                for i_, e in enumerate(exprs):
+                    g = self.eval_spec(e, st, self.spec_locals(st), st.old)
+                    self.oblige(st, g, f"cut[{a[:30]}][{i_}]@{s.lineno}", kind="cut", line=s.lineno)
+                    st.assume(g)
         if not before:
             for anchor, exprs in c.cuts.items():
+                if anchor.startswith("before:"):
+                    continue
                 if anchor in text:
                     self.used_anchors.add(anchor)
                     for i_, e in enumerate(exprs):
